@@ -174,12 +174,16 @@ def run {N : Type} [DecidableEq N] (env : Env N) : St N → List (Op N) → St N
     let rest := run env r.1 ops
     (rest.1, r.2 :: rest.2)
 
-/-- Concurrent callers.  Every call starts with `initAlignment.Do(initAlignmentFunc)`: `sync.Once` lets exactly one
-    caller run the initialisation and blocks every other caller until it has finished, and the package state is
-    written nowhere else after that (the table is loaded inside the initialisation), so with respect to that state
-    calls of different goroutines behave as if executed one at a time in some order.  `threads` holds the remaining
-    calls of each goroutine, `sched` names the goroutine whose next call happens next; the result list pairs every
-    executed call with its result (a goroutine id that has nothing left to do is skipped). -/
+/-- Concurrent callers, at the granularity of whole calls.  `runSched` executes one complete `step` per scheduler tick:
+    atomicity of a call is built into this definition, it is NOT derived.  What justifies it for the lookups is
+    `sync.Once`: exactly one caller runs `initAlignmentFunc`, every other lookup blocks in `Do` until it has finished,
+    and afterwards lookups only read the table and the two alignments.  `AllFunctions` is the exception in the code
+    (subvert.go:46 `GetSymbolTable` is an unsynchronised check-then-store of two package variables, reachable without the
+    `Once`): two racing first loads both build an equal table from the same file and store it, which the model's
+    single `touch` stands for; the Go memory model does not bless that race, the check's concurrent lanes observe it
+    (AllFunctions among the racing first calls).  `threads` holds the remaining calls of each goroutine, `sched` names
+    the goroutine whose next call happens next; the result pairs every executed call with its result (an id with
+    nothing left to do is skipped). -/
 def runSched {N : Type} [DecidableEq N] (env : Env N) : St N → List (List (Op N)) → List Nat → List (Op N × Res)
   | _, _, [] => []
   | s, threads, t :: sched =>
